@@ -721,7 +721,11 @@ func (a *Act) builtin(ctx *blockCtx, bi *ssa.Builtin, c *ssa.CallCommon, args []
 		if n, ok := g.knownLens[e.T]; ok {
 			arr := "(slc_arr " + s.T + ")"
 			for i := 0; i < n; i++ {
-				arr = fmt.Sprintf("(store %s (+ (slc_len %s) %d) (select (slc_arr %s) %d))", arr, s.T, i, e.T, i)
+				at := fmt.Sprintf("(+ (slc_len %s) %d)", s.T, i)
+				if i == 0 {
+					at = "(slc_len " + s.T + ")" // same shape as the spec builtin snoc()
+				}
+				arr = fmt.Sprintf("(store %s %s (select (slc_arr %s) %d))", arr, at, e.T, i)
 			}
 			r := Val{T: fmt.Sprintf("((as mk_slc %s) %s (+ (slc_len %s) %d))", e.S, arr, s.T, n), S: e.S, G: resT}
 			nm := g.fresh("app", r.S)
